@@ -83,6 +83,15 @@ func chainNamed(name string) *pki.Chain {
 		c = pki.SimpleChain("p256", 0, 1, "c07s")
 	case "three":
 		c = pki.SimpleChain("p256", 0, 3, "c07t")
+	case "leaf-ku-noncritical":
+		leaf := pki.LeafSpec(pki.K("p256", 0), "c07-leafku")
+		leaf.KUNotCritical = true
+		c = pki.MustBuild(leaf, pki.CASpec(pki.K("p256", 1), "c07-root"))
+	case "self-issued-intermediate":
+		// the intermediate carries the root's name (own key): self-issued, not self-signed
+		c = pki.MustBuild(pki.LeafSpec(pki.K("p256", 0), "c07-leaf-si"), pki.CASpec(pki.K("p256", 1), "c07-same-name"), pki.CASpec(pki.K("p256", 2), "c07-same-name"))
+	case "leaf-named-like-its-issuer":
+		c = pki.MustBuild(pki.LeafSpec(pki.K("p256", 0), "c07-one-name"), pki.CASpec(pki.K("p256", 1), "c07-one-name"))
 	}
 	chains[name] = c
 	return c
@@ -301,6 +310,9 @@ func buildCatalogue() []deviation {
 	add("chain-root-missing", false, both, func(m *Model) { m.ChainDER = sims.ChainDER(m.Chain.Certs[:1]) })
 	add("chain-self-signed-leaf", true, both, func(m *Model) { m.Chain = chainNamed("self-signed-leaf") })
 	add("chain-of-three", true, both, func(m *Model) { m.Chain = chainNamed("three") })
+	add("chain-leaf-ku-not-critical", false, both, func(m *Model) { m.Chain = chainNamed("leaf-ku-noncritical") })
+	add("chain-self-issued-intermediate", true, both, func(m *Model) { m.Chain = chainNamed("self-issued-intermediate") })
+	add("chain-leaf-named-like-its-issuer", true, both, func(m *Model) { m.Chain = chainNamed("leaf-named-like-its-issuer") })
 	add("alg-not-leaf-alg", false, both, func(m *Model) {
 		// sign with another key kind's algorithm and key, carry the base chain
 		m.Set("alg", `"ES384"`, envcodec.Int(-35))
@@ -335,6 +347,12 @@ func buildCatalogue() []deviation {
 		m.Set("io.example.second", `2`, nil)
 		m.Set("io.example.Second", `"3"`, nil)
 		m.Set("7", `[7]`, nil)
+	})
+	// unsigned members the specification does not define: a recipient ignores them
+	add("unknown-unsigned-members", true, both, func(m *Model) {
+		m.ExtraTop = []envcodec.Member{{Name: "extra", Raw: []byte(`{"a":[1,2]}`)}, {Name: "x-vendor", Raw: []byte(`true`)}}
+		m.ExtraHdr = []envcodec.Member{{Name: "kid", Raw: []byte(`"key-7"`)}, {Name: "io.example.unsigned", Raw: []byte(`[1]`)}}
+		m.ExtraUnp = []envcodec.KV{{K: envcodec.Int(99), V: envcodec.Tstr("unknown unprotected label")}, {K: envcodec.Tstr("io.example.unsigned"), V: envcodec.Int(1)}}
 	})
 	// a payload is a payload: members a JWT library would read as registered
 	// claims (expired, not yet valid, issued in the future, not even numbers)
